@@ -4,13 +4,32 @@ import uvlib
 from uvlib import ROOT, NCPU, log
 
 
+_built = {}
+
+
+def build(name):
+    if name not in _built:
+        d = DRIVERS[name]
+        _built[name] = uvlib.build_driver(name, d['src'], d.get('flags', []), d.get('compiler'), d.get('extra_srcs', ()))
+    return _built[name]
+
+
+def build_all(names):
+    """compile the drivers a check needs, in parallel"""
+    todo = [n for n in dict.fromkeys(names) if n not in _built]
+    with cf.ThreadPoolExecutor(max_workers=max(1, min(len(todo), NCPU))) as ex:
+        for n, r in zip(todo, ex.map(lambda n: uvlib.build_driver(n, DRIVERS[n]['src'], DRIVERS[n].get('flags', []),
+                                                                  DRIVERS[n].get('compiler'), DRIVERS[n].get('extra_srcs', ())), todo)):
+            _built[n] = r
+
+
 def run_stream(st, tier, seed, judge):
     """build the stream's driver(s) from the current tree, run all shards driver|judge in parallel"""
     out = {'mism': [], 'samples': [], 'crashes': [], 'total': {}, 'evidence': {}}
     t0 = time.time()
-    exe, err = uvlib.build_driver(st['name'], st['src'], st['flags'], st.get('compiler'), st.get('extra_srcs', ()))
+    exe, err = build(st['driver'])
     if exe is None:
-        out['crashes'].append('driver %s does not compile against the current tree:\n%s' % (st['name'], err[-3000:]))
+        out['crashes'].append('driver %s does not compile against the current tree:\n%s' % (st['driver'], err[-3000:]))
         out['evidence'] = {'stream': st['name'], 'error': 'compile failed'}
         return out
     jobs = []
@@ -51,7 +70,7 @@ def run_stream(st, tier, seed, judge):
 
 def replay_case(st, case_line, judge):
     import subprocess
-    exe, err = uvlib.build_driver(st['name'], st['src'], st['flags'], st.get('compiler'), st.get('extra_srcs', ()))
+    exe, err = build(st['driver'])
     if exe is None:
         return 'driver does not compile:\n' + err[-2000:]
     p1 = subprocess.run([exe, '--mode', 'cases'], input=case_line + '\n', stdout=subprocess.PIPE, text=True, timeout=600)
@@ -59,25 +78,143 @@ def replay_case(st, case_line, judge):
     return 'driver output:\n' + p1.stdout + 'judge output:\n' + p2.stdout
 
 
-EXH8 = 'every operand pair of every posit<n,es>, n in 2..8, es in 0..5 (26 configurations)'
+
+DRIVERS = {
+    'posit_small': {'src': 'drv_posit.cpp', 'flags': ['-DNO_LARGE']},
+    'posit_large': {'src': 'drv_posit.cpp', 'flags': ['-DNO_SMALL']},
+    'posit_mid': {'src': 'drv_posit.cpp', 'flags': ['-DNO_LARGE', '-DNO_SMALL', '-DWITH_MID']},
+    'fixpnt_small': {'src': 'drv_fixpnt.cpp', 'flags': ['-DNO_LARGE']},
+    'fixpnt_large': {'src': 'drv_fixpnt.cpp', 'flags': ['-DNO_SMALL']},
+    'integer_small': {'src': 'drv_integer.cpp', 'flags': ['-DNO_LARGE']},
+    'integer_large': {'src': 'drv_integer.cpp', 'flags': ['-DNO_SMALL']},
+    'lns_small': {'src': 'drv_lns.cpp', 'flags': ['-DNO_LARGE']},
+    'lns_large': {'src': 'drv_lns.cpp', 'flags': ['-DNO_SMALL']},
+    'areal_all': {'src': 'drv_areal.cpp', 'flags': []},
+    'quire_all': {'src': 'drv_quire.cpp', 'flags': []},
+}
+for k in (0, 1, 2, 3, 4, 10, 11, 12, 13):
+    DRIVERS['cfloat_s%d' % k] = {'src': 'drv_cfloat.cpp', 'flags': ['-DSET=%d' % k]}
+CF_SMALL = ['cfloat_s0', 'cfloat_s1', 'cfloat_s2', 'cfloat_s3']
+CF_LARGE = ['cfloat_s10', 'cfloat_s11', 'cfloat_s12', 'cfloat_s13']
+
+
+def exh(name, driver, group, shards=16, thorough_only=False, what=''):
+    runs = {'thorough': [dict(args=['--mode', 'exh', '--group', group], shards=shards)]}
+    if not thorough_only:
+        runs['quick'] = runs['thorough']
+    return {'name': name, 'driver': driver, 'what': what or ('every encoding / operand pair of every small configuration in %s, group %s' % (driver, group)),
+            'exhaustive': {'quick': True, 'thorough': True}, 'runs': runs}
+
+
+def rnd(name, driver, group, quick, thorough, shards=8, what=''):
+    return {'name': name, 'driver': driver, 'what': what or ('structured + random operands, large configurations in %s, group %s' % (driver, group)),
+            'runs': {'quick': [dict(args=['--mode', 'rnd', '--group', group, '--count', str(quick)], shards=shards)],
+                     'thorough': [dict(args=['--mode', 'rnd', '--group', group, '--count', str(thorough)], shards=shards)]}}
+
+
+NT = ('non-trivial = rounding/clamp/overflow/flush happened or a special operand took part; distinct = distinct case lines among '
+      'those (hash set in the judge)')
 
 PLANS = {
     'C01': {
         'level': 'proof', 'coq': 'Properties_C01',
-        'rule': 'exhaustive: all encodings/pairs of 26 posit configs <= 8 bits x {add,sub,mul,div,rcp,neg,abs}; '
-                'sampled: structured operands (specials, extremes, every regime length x tail class, related pairs) '
-                'for 23 configs 11..64 bits. non-trivial = rounding happened, a clamp was taken, or a special operand; '
-                'distinct = distinct case lines among those (hash set in the judge)',
-        'assumptions': ['layer-S model (Coq) is compared with the C++ public API on the listed inputs; configurations > 10 bits are sampled'],
-        'streams': [
-            {'name': 'posit_arith_exh', 'src': 'drv_posit.cpp', 'flags': ['-DGRP_ARITH', '-DNO_LARGE'],
-             'what': EXH8 + ' x {add,sub,mul,div}; every encoding x {rcp,neg,abs}',
-             'exhaustive': {'quick': True, 'thorough': True},
-             'runs': {'quick': [dict(args=['--mode', 'exh'], shards=16)], 'thorough': [dict(args=['--mode', 'exh'], shards=16)]}},
-            {'name': 'posit_arith_rnd', 'src': 'drv_posit.cpp', 'flags': ['-DGRP_ARITH', '-DNO_SMALL'],
-             'what': 'structured + random operands, 23 configurations 11..64 bits',
-             'runs': {'quick': [dict(args=['--mode', 'rnd', '--count', '1500'], shards=23)],
-                      'thorough': [dict(args=['--mode', 'rnd', '--count', '40000'], shards=23)]}},
-        ],
+        'rule': 'exhaustive: all encodings/pairs of 26 posit configs <= 8 bits x {add,sub,mul,div,rcp,neg,abs}; sampled: structured '
+                'operands (specials, extremes, every regime length x tail class, related pairs) for 23 configs 11..64 bits. ' + NT,
+        'assumptions': ['layer-S Coq model compared with the C++ public API; configurations above 8 (quick) / 10 (thorough) bits are sampled'],
+        'streams': [exh('posit_arith_exh', 'posit_small', 'arith'),
+                    exh('posit_arith_mid', 'posit_mid', 'arith', thorough_only=True),
+                    rnd('posit_arith_rnd', 'posit_large', 'arith', 1200, 30000, shards=23)],
+    },
+    'C02': {
+        'level': 'proof', 'coq': 'Properties_C02',
+        'rule': 'exhaustive: all operand pairs of every cfloat configuration in sets 0-3 (8-bit es 1..6 and smaller, all sub/sup/sat '
+                'combinations) x {add,sub,mul,div,neg}; sampled: field-structured operands for half, bfloat_t, single, duble, quad and '
+                'other multi-block configurations. ' + NT,
+        'assumptions': ['NaN results are compared as a class; zero sums may carry either sign'],
+        'streams': [exh('cfloat_arith_exh%d' % k, 'cfloat_s%d' % k, 'arith') for k in range(4)] +
+                   [exh('cfloat_arith_mid', 'cfloat_s4', 'arith', thorough_only=True)] +
+                   [rnd('cfloat_arith_rnd%d' % k, 'cfloat_s%d' % k, 'arith', 1500, 40000, shards=4) for k in (10, 11, 12, 13)],
+    },
+    'C07': {
+        'level': 'proof', 'coq': 'Properties_C07',
+        'rule': 'exhaustive: all pairs of fixpnt<4..8, 0..n, Modulo|Saturate, uint8_t> x {add,sub,mul,div}, all encodings x {neg,++,--}; '
+                'sampled: structured operands for 19 configurations 12..64 bits x 3 block types. ' + NT,
+        'assumptions': ['division by zero is not judged (C19/C20 cover it)'],
+        'streams': [exh('fixpnt_arith_exh', 'fixpnt_small', 'arith'),
+                    rnd('fixpnt_arith_rnd', 'fixpnt_large', 'arith', 2000, 50000, shards=16)],
+    },
+    'C08': {
+        'level': 'proof', 'coq': 'Properties_C08',
+        'rule': 'exhaustive: all pairs of integer<4..8, u8|u16|u32> x {add,sub,mul,div,rem,and,or,xor}, all encodings x {neg,not} and all '
+                'shift counts in [-n-1, n+1]; sampled: structured operands (carry chains, minint, sparse) for 25 configurations 12..256 '
+                'bits x block types. ' + NT,
+        'assumptions': ['division by zero is not judged (C19/C20 cover it)'],
+        'streams': [exh('integer_arith_exh', 'integer_small', 'arith'), exh('integer_logic_exh', 'integer_small', 'logic'),
+                    rnd('integer_arith_rnd', 'integer_large', 'arith', 1500, 40000, shards=16),
+                    rnd('integer_logic_rnd', 'integer_large', 'logic', 500, 10000, shards=16),
+                    exh('integer_conv_exh', 'integer_small', 'conv'), rnd('integer_conv_rnd', 'integer_large', 'conv', 300, 5000, shards=16)],
+    },
+    'C09': {
+        'level': 'proof', 'coq': 'Properties_C09',
+        'rule': 'exhaustive: all pairs of 13 lns configurations <= 8 bits (Saturating and Wrapping) x {mul,div} and x {add,sub} '
+                '(acceptance: result must bracket the exact sum, decided with certified rational enclosures of 2^(k/2^r)); sampled for '
+                '12 configurations 12..64 bits. ' + NT,
+        'assumptions': ['add/sub: the for-all claim is carried by the per-case acceptance predicate, not by a theorem (the implementation goes through double/libm)'],
+        'streams': [exh('lns_muldiv_exh', 'lns_small', 'muldiv'), exh('lns_addsub_exh', 'lns_small', 'addsub'),
+                    rnd('lns_arith_rnd', 'lns_large', 'arith', 600, 15000, shards=12)],
+    },
+    'C05': {
+        'level': 'proof', 'coq': 'Properties_C05',
+        'rule': 'random histories (1..40 steps of += posit, -= posit, += quire_mul(a,b)) for 10 quire configurations; every step prints '
+                'the complete state (sign + all qbits) before and after and is judged against the exact integer model, so each history '
+                'is validated inductively; each history is replayed permuted and partitioned into 2-4 partial quires that are added; '
+                'conversion to posit after random steps; fdp on the same data in two orders. non-trivial = every step; distinct = distinct lines',
+        'assumptions': ['steps whose exact result exceeds the quire capacity are outside the property precondition and not judged'],
+        'streams': [{'name': 'quire_hist', 'driver': 'quire_all', 'what': 'random quire histories',
+                     'runs': {'quick': [dict(args=['--mode', 'rnd', '--count', '150'], shards=10)],
+                              'thorough': [dict(args=['--mode', 'rnd', '--count', '4000'], shards=10)]}}],
+    },
+    'C18': {
+        'level': 'proof', 'coq': 'Properties_C18',
+        'rule': 'for every encoding of 14 areal configurations <= 12 bits: sources = the exact value, its double neighbours, the midpoint '
+                'to the next exact value and its neighbours, quarter points (as double and as float), specials, values beyond maxpos and below '
+                'minpos; sampled for 10 configurations 16..48 bits. non-trivial = all; distinct = distinct lines',
+        'assumptions': [],
+        'streams': [exh('areal_from_exh', 'areal_all', 'from'), rnd('areal_from_rnd', 'areal_all', 'from', 1500, 40000, shards=10)],
+    },
+    'C03': {
+        'level': 'proof', 'coq': 'Properties_C03',
+        'rule': 'model-aimed sources per target encoding (exact value, double/float neighbours, midpoints and their neighbours, quarter '
+                'points, integers around the value in every width/signedness that holds them) + specials (zeros, infinities, quiet and '
+                'signalling NaNs, subnormals, extremes, 2^24/2^53/2^63 boundaries) for every small posit/cfloat/fixpnt/integer '
+                'configuration; sampled for the large ones. non-trivial = all; distinct = distinct lines',
+        'assumptions': ['lns conversion is judged by an acceptance predicate (nearest or its neighbour in the log domain)'],
+        'streams': [exh('posit_from_exh', 'posit_small', 'from'), rnd('posit_from_rnd', 'posit_large', 'from', 400, 8000, shards=23)] +
+                   [exh('cfloat_from_exh%d' % k, 'cfloat_s%d' % k, 'from') for k in range(4)] +
+                   [rnd('cfloat_from_rnd%d' % k, 'cfloat_s%d' % k, 'from', 400, 8000, shards=4) for k in (10, 11, 12, 13)] +
+                   [exh('fixpnt_from_exh', 'fixpnt_small', 'from'), rnd('fixpnt_from_rnd', 'fixpnt_large', 'from', 300, 6000, shards=16),
+                    exh('integer_from_exh', 'integer_small', 'from'), rnd('integer_from_rnd', 'integer_large', 'from', 300, 6000, shards=16)],
+    },
+    'C04': {
+        'level': 'proof', 'coq': 'Properties_C04',
+        'rule': 'every encoding of every small posit/cfloat/fixpnt/integer/areal configuration: double(x), float(x), T(double(x)), '
+                'int/long long (x); sampled for large configurations whose values fit the native type. non-trivial = all; distinct = distinct lines',
+        'assumptions': ['NaN results compared as a class'],
+        'streams': [exh('posit_to_exh', 'posit_small', 'to'), rnd('posit_to_rnd', 'posit_large', 'to', 600, 10000, shards=23)] +
+                   [exh('cfloat_to_exh%d' % k, 'cfloat_s%d' % k, 'to') for k in range(4)] +
+                   [rnd('cfloat_to_rnd%d' % k, 'cfloat_s%d' % k, 'to', 600, 10000, shards=4) for k in (10, 11)] +
+                   [exh('fixpnt_to_exh', 'fixpnt_small', 'to'), rnd('fixpnt_to_rnd', 'fixpnt_large', 'to', 500, 8000, shards=16),
+                    exh('integer_to_exh', 'integer_small', 'to'), exh('areal_to_exh', 'areal_all', 'to')],
+    },
+    'C06': {
+        'level': 'proof', 'coq': 'Properties_C06',
+        'rule': 'all ordered pairs of every small posit/cfloat/fixpnt/integer configuration x {==,!=,<,<=,>,>=}; ++/-- on every encoding; '
+                'sampled for large configurations. non-trivial = all; distinct = distinct lines',
+        'assumptions': [],
+        'streams': [exh('posit_cmp_exh', 'posit_small', 'cmp'), rnd('posit_cmp_rnd', 'posit_large', 'cmp', 800, 15000, shards=23)] +
+                   [exh('cfloat_cmp_exh%d' % k, 'cfloat_s%d' % k, 'cmp') for k in range(4)] +
+                   [rnd('cfloat_cmp_rnd%d' % k, 'cfloat_s%d' % k, 'cmp', 800, 15000, shards=4) for k in (10, 11, 12, 13)] +
+                   [exh('fixpnt_cmp_exh', 'fixpnt_small', 'cmp'), rnd('fixpnt_cmp_rnd', 'fixpnt_large', 'cmp', 600, 10000, shards=16),
+                    exh('integer_cmp_exh', 'integer_small', 'cmp'), rnd('integer_cmp_rnd', 'integer_large', 'cmp', 600, 10000, shards=16)],
     },
 }
